@@ -680,6 +680,142 @@ theorem c_types_correspond (jc : JavaCfg) (c : JniCfg) (d : Decl) (h : Dom jc c 
   have := congrArg (List.map (fun v : String × String × String × List String => v.2)) (exports_are_natives jc c d h hp)
   simpa [List.map_map, Function.comp_def, Export.view, JMember.nativeView] using this
 
+
+/-! ### support classes of asynchronous methods; call histories on one `API` object -/
+
+theorem mangle_cleanup : mangle "$CleanupTask" = "_00024CleanupTask" := by decide
+theorem mangle_nativeRun : mangle "nativeRun" = "nativeRun" := by decide
+theorem mangle_nativeSuccess : mangle "nativeSuccess" = "nativeSuccess" := by decide
+theorem mangle_nativeException : mangle "nativeException" = "nativeException" := by decide
+theorem lit_cleanup (p : String) : p ++ "_00024CleanupTask_nativeDestroy" = p ++ ("_00024CleanupTask" ++ ("_" ++ "nativeDestroy")) := by
+  have : "_00024CleanupTask_nativeDestroy" = "_00024CleanupTask" ++ ("_" ++ "nativeDestroy") := by decide
+  rw [this]
+theorem lit_run (p : String) : p ++ "_nativeRun" = p ++ ("_" ++ "nativeRun") := by
+  have : "_nativeRun" = "_" ++ "nativeRun" := by decide
+  rw [this]
+theorem lit_success (p : String) : p ++ "_nativeSuccess" = p ++ ("_" ++ "nativeSuccess") := by
+  have : "_nativeSuccess" = "_" ++ "nativeSuccess" := by decide
+  rw [this]
+theorem lit_exception (p : String) : p ++ "_nativeException" = p ++ ("_" ++ "nativeException") := by
+  have : "_nativeException" = "_" ++ "nativeException" := by decide
+  rw [this]
+
+/-- **support_lookups_resolve** — the classes / constructor / field the glue of `NativeRunnable` and `NativeCompletion` looks up
+    exist in the support classes the Java generator writes, for every `java.package` / `java.support_types_package` -/
+theorem support_lookups_resolve (jc : JavaCfg) (r k : Bool) :
+    (supportLookups jc r k).all (okIn (supportClasses jc r k) (supportMembers jc r k)) = true := by
+  have hR : r = true → (proxyLookups (supportJniClass jc "NativeRunnable")).all (okIn (supportClasses jc r k) (supportMembers jc r k)) = true := by
+    intro hr
+    exact proxyLookups_ok (javaSupportPackage jc) "NativeRunnable" _ _ (by simp [supportClasses, hr])
+      (by intro m hm; simp only [supportMembers, hr, if_true, List.mem_append]; exact Or.inl (Or.inl hm))
+  have hK : k = true → (proxyLookups (supportJniClass jc "NativeCompletion")).all (okIn (supportClasses jc r k) (supportMembers jc r k)) = true := by
+    intro hk
+    exact proxyLookups_ok (javaSupportPackage jc) "NativeCompletion" _ _ (by simp [supportClasses, hk])
+      (by intro m hm; simp only [supportMembers, hk, if_true, List.mem_append]; exact Or.inr (Or.inl hm))
+  cases r <;> cases k <;> simp [supportLookups, List.all_append] <;> simp_all
+
+theorem sym_cleanup (pkg : List String) (cn : String) :
+    nativeSymbolL (pkg ++ [cn ++ "$CleanupTask"]) "nativeDestroy" = jniPrefix (pkg ++ [cn]) ++ "_00024CleanupTask_nativeDestroy" := by
+  rw [nativeSymbolL_suffix, mangle_cleanup, mangle_nativeDestroy, lit_cleanup, String.append_assoc, String.append_assoc]
+theorem sym_run (pkg : List String) (cn : String) : nativeSymbolL (pkg ++ [cn]) "nativeRun" = jniPrefix (pkg ++ [cn]) ++ "_nativeRun" := by
+  rw [nativeSymbolL_plain, mangle_nativeRun, String.append_assoc, ← lit_run]
+theorem sym_success (pkg : List String) (cn : String) : nativeSymbolL (pkg ++ [cn]) "nativeSuccess" = jniPrefix (pkg ++ [cn]) ++ "_nativeSuccess" := by
+  rw [nativeSymbolL_plain, mangle_nativeSuccess, String.append_assoc, ← lit_success]
+theorem sym_exception (pkg : List String) (cn : String) : nativeSymbolL (pkg ++ [cn]) "nativeException" = jniPrefix (pkg ++ [cn]) ++ "_nativeException" := by
+  rw [nativeSymbolL_plain, mangle_nativeException, String.append_assoc, ← lit_exception]
+
+theorem ctype_object : jniCType jObject = "jobject" := by decide
+theorem ctype_throwable : jniCType jThrowable = "jthrowable" := by decide
+theorem ctype_long : jniCType jlong = "jlong" := by decide
+
+theorem nativesOf_cons_native (m : JMember) (ms : List JMember) (h : m.isNative = true) : nativesOf (m :: ms) = m :: nativesOf ms := by
+  simp [nativesOf, h]
+
+/-- **support_exports_are_natives** — the `JNIEXPORT` functions of `schedule.cpp` / `completion.cpp` are one for one the native
+    methods of the Java support classes: escaped symbol of the package the Java generator wrote them to, C types of the signature -/
+theorem support_exports_are_natives (jc : JavaCfg) (r k : Bool) :
+    (supportExports jc r k).map Export.view = (nativesOf (supportMembers jc r k)).map JMember.nativeView := by
+  have hj : jniSupportPackage jc = javaSupportPackage jc := rfl
+  have hnil : nativesOf [] = [] := rfl
+  cases r <;> cases k <;>
+    simp only [supportExports, supportMembers, hj, if_true, if_false, Bool.false_eq_true, List.append_nil, List.nil_append, nativesOf_append,
+      nativesOf_proxy, nativesOf_cons_native, hnil, List.map_append, List.map_cons, List.map_nil, Export.view, JMember.nativeView,
+      JMember.symbol, sym_cleanup, sym_run, sym_success, sym_exception, jniCTypeO, ctype_object, ctype_throwable, ctype_long,
+      List.cons_append]
+
+theorem okIn_mono2 (cs cs' : List String) (ms ms' : List JMember) (l : Lookup) (hc : ∀ c ∈ cs, c ∈ cs') (hm : ∀ m ∈ ms, m ∈ ms')
+    (hok : okIn cs ms l = true) : okIn cs' ms' l = true := by
+  unfold okIn at *
+  by_cases hk : (l.kind == "class") = true
+  · simp only [hk, if_true, List.contains_iff_mem] at hok ⊢
+    exact hc _ hok
+  · simp only [hk, Bool.false_eq_true, if_false, List.any_eq_true] at hok ⊢
+    obtain ⟨m, hm', hmm⟩ := hok
+    exact ⟨m, hm m hm', hmm⟩
+
+/-- **history_free** — the output of every round of a call history on one `API` object is the output of a fresh object for that
+    round's configuration and program: `configure` replaces what the generator instances hold, nothing derived from an earlier
+    configuration survives -/
+theorem history_free (s : GenState) (rs : List Round) : runHistory s rs = rs.map freshRound := by
+  induction rs generalizing s with
+  | nil => rfl
+  | cons r rs ih => simp [runHistory, ih, freshRound, GenState.configure]
+
+theorem map_flatMap' {α β γ : Type} (f : α → List β) (g : β → γ) (l : List α) : (l.flatMap f).map g = l.flatMap (fun a => (f a).map g) := by
+  induction l with
+  | nil => rfl
+  | cons a as ih => simp [List.flatMap_cons, ih]
+
+theorem nativesOf_flatMap {α : Type} (f : α → List JMember) (l : List α) : nativesOf (l.flatMap f) = l.flatMap (fun a => nativesOf (f a)) := by
+  induction l with
+  | nil => rfl
+  | cons a as ih => simp [List.flatMap_cons, nativesOf_append, ih]
+
+/-- one round: every lookup of the whole output (declarations and support classes) resolves in that round's Java -/
+theorem round_lookups_resolve (r : Round) (hd : ∀ d ∈ r.decls, Dom r.jc r.c d) :
+    (freshRound r).lookups.all (okIn (freshRound r).classes (freshRound r).members) = true := by
+  simp only [freshRound, GenState.generate, List.all_append, Bool.and_eq_true, List.all_eq_true]
+  constructor
+  · intro l hl
+    obtain ⟨d, hdm, hld⟩ := List.mem_flatMap.mp hl
+    have := lookups_resolve r.jc r.c d (hd d hdm)
+    simp only [List.all_eq_true] at this
+    have hok := this l hld
+    rw [lookupOk_eq] at hok
+    exact okIn_mono2 _ _ _ _ l (fun c hc => List.mem_append_left _ (List.mem_flatMap.mpr ⟨d, hdm, hc⟩))
+      (fun m hm => List.mem_append_left _ (List.mem_flatMap.mpr ⟨d, hdm, hm⟩)) hok
+  · intro l hl
+    have := support_lookups_resolve r.jc (asyncOn "cpp" r.decls) (asyncOn "java" r.decls)
+    simp only [List.all_eq_true] at this
+    exact okIn_mono2 _ _ _ _ l (fun c hc => List.mem_append_right _ hc) (fun m hm => List.mem_append_right _ hm) (this l hl)
+
+/-- one round: the exports of the whole output are one for one the native methods of that round's Java -/
+theorem round_exports_are_natives (r : Round) (hd : ∀ d ∈ r.decls, Dom r.jc r.c d) (hp : pkgOk r.jc) :
+    (freshRound r).exports.map Export.view = (nativesOf (freshRound r).members).map JMember.nativeView := by
+  simp only [freshRound, GenState.generate, List.map_append, nativesOf_append, support_exports_are_natives, nativesOf_flatMap, map_flatMap']
+  congr 1
+  have : ∀ (l : List Decl), (∀ d ∈ l, Dom r.jc r.c d) →
+      l.flatMap (fun a => (jniExports r.jc r.c a).map Export.view) = l.flatMap (fun a => (nativesOf (javaMembers r.jc a)).map JMember.nativeView) := by
+    intro l
+    induction l with
+    | nil => intro _; rfl
+    | cons a as ih =>
+      intro h
+      simp only [List.flatMap_cons]
+      rw [exports_are_natives r.jc r.c a (h a (by simp)) hp, ih (fun d hd' => h d (by simp [hd']))]
+  exact this r.decls hd
+
+/-- **history_rounds_agree** — for every call history on one `API` object (any number of rounds, any configurations and programs
+    inside the domain) and every round of it: all lookups of that round's glue resolve in that round's generated Java, and the
+    round's exports are one for one the native methods of that round's Java -/
+theorem history_rounds_agree (s : GenState) (rs : List Round) (hd : ∀ r ∈ rs, ∀ d ∈ r.decls, Dom r.jc r.c d) (hp : ∀ r ∈ rs, pkgOk r.jc) :
+    ∀ o ∈ runHistory s rs, o.lookups.all (okIn o.classes o.members) = true ∧
+      o.exports.map Export.view = (nativesOf o.members).map JMember.nativeView := by
+  rw [history_free]
+  intro o ho
+  obtain ⟨r, hr, rfl⟩ := List.mem_map.mp ho
+  exact ⟨round_lookups_resolve r (hd r hr), round_exports_are_natives r (hd r hr) (hp r hr)⟩
+
 /-! satisfiability of the hypotheses, on a concrete interface (`i = interface +cpp { static make(x: i32?) -> i; do_it(); }`) -/
 def exI32 : Builtin :=
   { name := "i32", prim := .primitive, cppTypename := "int32_t", cppHeader := "<cstdint>", cppByValue := true, javaTypename := "int", javaBoxed := "Integer",
@@ -705,5 +841,19 @@ example : exD.wf = true ∧ jniClassNameIsJavaName exJc exC exD = true ∧ noJav
 example : (jniExports exJc exC exD).map (fun e => (e.ret, e.recv, e.params)) =
     [("void", "jobject", ["jlong"]), ("jobject", "jclass", ["jobject"]), ("void", "jobject", ["jlong"])] := by decide +kernel
 
+
+/-! a history of two rounds with an asynchronous method and different packages: the second round registers / exports the second package -/
+def exAsyncD : Decl := .interface exU
+  [{ name := "go", params := [], ret := some (.mk (.builtin exI32) [] false), isStatic := false, isConst := false, isAsync := true, throwing := none }]
+def exJc2 : JavaCfg := { exJc with
+  package := ["org", "other"],
+  supportPackage := ["internal", "sup"] }
+example : ((runHistory { jc := exJc, c := exC } [{ jc := exJc, c := exC, decls := [exAsyncD] }, { jc := exJc2, c := exC, decls := [exAsyncD] }]).map
+    (fun o => (o.lookups.filter (fun l => l.kind == "class" && l.cls != "com/ex/I$CppProxy" && l.cls != "org/other/I$CppProxy")).map (·.cls))) =
+    [["com/ex/pydjinni/NativeRunnable"], ["org/other/internal/sup/NativeRunnable"]] := by decide +kernel
+example : (supportExports exJc2 true false).map (·.symbol) =
+    ["Java_org_other_internal_sup_NativeRunnable_00024CleanupTask_nativeDestroy", "Java_org_other_internal_sup_NativeRunnable_nativeRun"] := by decide +kernel
+example : Dom exJc exC exAsyncD ∧ pkgOk exJc2 := by
+  refine ⟨⟨by decide +kernel, by decide +kernel, by decide +kernel, by decide +kernel, by decide +kernel⟩, by unfold pkgOk; decide +kernel⟩
 
 end Pydjinni.Gen
